@@ -77,9 +77,16 @@ Inductive c05_case :=
                                (* the built CLI: SELECT ... FROM S [ORDER BY ks] LIMIT n, where the source S is a JSON file
                                   (noretr = true) or a GROUP BY ... TRIGGER COUNTING k over it (noretr = false: it retracts);
                                   src_rows = the final bag of S *)
-| CliLimitOf (n : Z) (ref_rows : list row) (ob : observation).
+| CliLimitOf (n : Z) (ref_rows : list row) (ob : observation)
                                (* the built CLI: Q LIMIT n against Q itself (run without the LIMIT) for queries Q that are
                                   not modelled here (an end-of-stream flushing GROUP BY above an inner LIMIT ...) *)
+| Cli2 (mode : out_mode) (iks : list (bool * expr)) (ilimit : option Z) (oks : list (bool * expr)) (n : Z)
+       (file_rows : list row) (ob : observation)
+                               (* SELECT .. FROM (SELECT .. FROM f [ORDER BY iks] [LIMIT m]) t [ORDER BY oks] LIMIT n:
+                                  LIMIT and ORDER BY on both sides of a subquery boundary *)
+| CliBag (expected : list row) (ob : observation).
+                               (* a query whose result bag the harness computes itself (a LIMIT subquery on the right of a
+                                  LOOKUP JOIN: it is run again for every left row) *)
 
 Definition c05_tie (c : c05_case) : bool :=
   match c with
@@ -90,6 +97,12 @@ Definition c05_tie (c : c05_case) : bool :=
       forallb (fun k => forallb (fun x => expr_ok (length x) (snd k)) rows) ks &&
       obs_eqb (obs_of_rows (printed mode nested (okeys_of ks) (Some n) noretr (map (fun x => Rec (ins x)) rows))) ob
   | CliLimitOf _ _ _ => true
+  | Cli2 mode iks ilimit oks n rows ob =>
+      (* the subquery is materialised by the nested rule (its result never retracts), the outer query by the top-level rule *)
+      forallb (fun k => forallb (fun x => expr_ok (length x) (snd k)) rows) (iks ++ oks) &&
+      obs_eqb (obs_of_rows (obind (eager_choice (okeys_of iks) ilimit true (map (fun x => Rec (ins x)) rows))
+                                  (fun mid => printed mode false (okeys_of oks) (Some n) true mid))) ob
+  | CliBag _ _ => true
   end.
 
 Definition c05_spec (c : c05_case) : bool :=
@@ -99,13 +112,30 @@ Definition c05_spec (c : c05_case) : bool :=
       let rows := expand (records inp) in
       match nd, ob with
       | NLimit n, ObsEvents out => (n <? 0) || negb (insert_only (records inp)) || is_limit_ofb n rows (rows_of out)
+      (* a LIMIT above other nodes (e.g. above an ORDER BY of a subquery): when what is below has a batch meaning that
+         is a plain bag and emits insertions only, the output is a limit of that bag *)
+      | NPipe a (NLimit n), ObsEvents out =>
+          (n <? 0) ||
+          match batch_of a rows, run_node a inp with
+          | Some l, ObsEvents mid =>
+              negb (insert_only l) || negb (insert_only (records mid)) || is_limit_ofb n (map vals l) (rows_of out)
+          | _, _ => true
+          end
+      | NPipe a (NOst ks (Some n) noretr), ObsEvents out =>
+          match batch_of a rows, run_node a inp with
+          | Some l, ObsEvents mid =>
+              negb (insert_only l) || (noretr && negb (insert_only (records mid))) || negb (valid_changelog (records mid)) ||
+              (insert_only (records out) && is_top_nb (okeys_of ks) n (map vals l) (rows_of out))
+          | _, _ => true
+          end
       | NOst ks (Some n) noretr, ObsEvents out =>
           (noretr && negb (insert_only (records inp))) ||
           (insert_only (records out) && is_top_nb (okeys_of ks) n rows (rows_of out))
       | NOst ks (Some n) _, ObsErr => n <? 0
       | NPrinter ks (Some n) noretr, ObsRows out =>
           (n <? 0) || (noretr && negb (insert_only (records inp))) || is_top_nb (okeys_of ks) n rows out
-      | _, _ => false
+      (* any other node or pipeline the engine runs: the oracle of C15 *)
+      | _, _ => c15_spec (arity, nd, inp, ob)
       end
   | Cli mode nested _ ks n rows ob =>
       match ob with
@@ -119,6 +149,30 @@ Definition c05_spec (c : c05_case) : bool :=
   | CliLimitOf n ref ob =>
       match ob with
       | ObsRows out => (n <? 0) || is_limit_ofb n ref out
+      | _ => false
+      end
+  | Cli2 mode iks ilimit oks n rows ob =>
+      match ob with
+      | ObsRows out =>
+          let m := match ilimit with Some m => Z.min n m | None => n end in
+          let table := match mode with BatchTable => true | _ => false end in
+          (n <? 0) || (match ilimit with Some m => m <? 0 | None => false end) ||
+          (is_limit_ofb m rows out &&
+           (* an outer ORDER BY over the whole subquery result: the first n of it *)
+           (match oks, ilimit with
+            | _ :: _, None => is_top_nb (okeys_of oks) n rows out
+            | _, _ => true
+            end) &&
+           (* an outer LIMIT alone over an ordered subquery takes the first rows of that order *)
+           (match oks, iks with
+            | [], _ :: _ => if table then is_top_n_setb (okeys_of iks) m rows out else is_top_nb (okeys_of iks) m rows out
+            | _, _ => true
+            end))
+      | _ => false
+      end
+  | CliBag expected ob =>
+      match ob with
+      | ObsRows out => bag_eqb (map ins out) (map ins expected)
       | _ => false
       end
   end.
